@@ -138,14 +138,15 @@ def elastic_cases(draw, dim):
 
 def _solve_elastic(mesh, mat, case, sets, Q, dim):
     simu = Simulations.Elastic(mesh, mat)
-    simu.rho = case["rho"]
+    un = float(case["law"].get("unit", 1.0))  # unit system of the moduli: loads and density follow, displacements stay O(1)
+    simu.rho = un * case["rho"]
     fixed, loaded = sets  # node sets chosen once on the base mesh (numbering is kept by the motion)
     unk = ["x", "y", "z"][:dim]
     Qd = Q[:dim, :dim]
     ud = Qd @ np.array(case["ud"], float)
-    body = Qd @ np.array(case["body"], float)
-    trac = Qd @ np.array(case["trac"], float)
-    point = Qd @ np.array(case["point"], float)
+    body = un * (Qd @ np.array(case["body"], float))
+    trac = un * (Qd @ np.array(case["trac"], float))
+    point = un * (Qd @ np.array(case["point"], float))
     simu.add_dirichlet(fixed, [float(v) for v in ud], unk)
     used = gm.used_nodes(mesh)
     simu.add_volumeLoad(used, [float(v) for v in body], unk)
@@ -200,8 +201,9 @@ def check_elastic(case, rec):
         for k in ("v", "a"):
             sc = np.abs(s1[k]).max() + 1e-6
             rec.close((s2[k] - s1[k] @ Qd.T)[used], sc, TOL, k + "_rotated", f"{case['dynamic']}: {k}' != Q {k}", **sig)
-    rec.close(s2["W"] - s1["W"], abs(s1["W"]) + 1e-6, 1e-7, "energy_invariant", f"Wdef {s2['W']!r} vs {s1['W']!r}", **sig)
-    rec.close(s2["Svm"] - s1["Svm"], np.abs(s1["Svm"]).max() + 1e-6, 1e-7, "svm_invariant", "", **sig)
+    un = float(case["law"].get("unit", 1.0))
+    rec.close(s2["W"] - s1["W"], abs(s1["W"]) + 1e-6 * un, 1e-7, "energy_invariant", f"Wdef {s2['W']!r} vs {s1['W']!r}", **sig)
+    rec.close(s2["Svm"] - s1["Svm"], np.abs(s1["Svm"]).max() + 1e-6 * un, 1e-7, "svm_invariant", "", **sig)
     loaded = any(abs(v) > 0 for k in ("ud", "body", "trac", "point") for v in case[k])
     rec.nontrivial(nontrivial_iso(iso) and loaded)
 
